@@ -68,10 +68,10 @@ def perms_for(n, tier, rnd):
         if p != ident and p not in out: out.append(p)
     return out
 
-def perm_family(name, reg0, perms, dedup, ST=ST):
+def perm_family(name, reg0, perms, dedup, ST=ST, mkreg=None):
     def mk(eng):
         k = eng.choose([(i, True) for i in range(len(perms))])
-        return symbolize_leaves(eng, reg0), perms[k]
+        return (mkreg(eng) if mkreg else symbolize_leaves(eng, reg0)), perms[k]
     def run(eng, ctx):
         reg, perm = ctx
         res = {"violations": []}
@@ -158,12 +158,26 @@ def families(eng, tier, seed):
         r = C[n]; roots = user_ids(r)
         if tier == "quick": roots = roots[:8]
         fams.append(describe_restrict_family("restrict-describe-%s" % n, r, roots))
+    # three (thorough: four) definitions under one path, each with two fields drawn from three primitives: the shape
+    # groups that de-duplication forms must not depend on the order in which the members are met
+    def members(k):
+        def mkreg(eng):
+            reg = [prim("U8"), prim("U16"), prim("Bool")]; names = ["u8", "u16", "bool"]
+            for j in range(k):
+                x = eng.choose([(i, True) for i in range(3)]); y = eng.choose([(i, True) for i in range(3)])
+                reg.append(comp(["m", "Foo"], [fld("a", x, names[x]), fld("b", y, names[y])]))
+            reg.append(comp(["m", "H"], [fld("f%d" % j, 3 + j, "Foo") for j in range(k)]))
+            return reg
+        return mkreg
+    n3 = 3 + 3 + 1
+    fams.append(perm_family("perm-three-shapes", None, [list(reversed(range(n3))), [0, 1, 2, 4, 5, 3, 6], [0, 1, 2, 5, 3, 4, 6], [0, 1, 2, 4, 3, 5, 6]], True, mkreg=members(3)))
+    if tier == "thorough": fams.append(perm_family("perm-four-shapes", None, [list(reversed(range(8))), [0, 1, 2, 4, 5, 6, 3, 7], [0, 1, 2, 6, 5, 4, 3, 7]], True, mkreg=members(4)))
     for n, r in C.items():
         if n in SKIP: continue
         if tier == "quick" and len(r) > 45: continue
         multi = len({tuple(t["path"]) for t in r if t["path"]}) < sum(1 for t in r if t["path"])
-        dd = n in ("versions", "assoc_skip", "assoc_noskip", "assoc_same", "assoc_twins")
-        reg = strip_segment(r, ("v1", "v2")) if n == "versions" else r
+        dd = n in ("versions", "versions_hdr", "assoc_skip", "assoc_noskip", "assoc_same", "assoc_twins")
+        reg = strip_segment(r, ("v1", "v2")) if n == "versions" else strip_segment(r, ("h1", "h2")) if n == "versions_hdr" else r
         ps = perms_for(len(reg), tier, rnd)
         if ps: fams.append(perm_family("perm-%s" % n, reg, ps, dd))
         ips = []
@@ -186,7 +200,8 @@ def confirm(v, real):
     o1 = real.get("result") if real.get("result") == "Ok" else "Err:%s" % real.get("err_variant"); o2 = r2.get("result") if r2.get("result") == "Ok" else "Err:%s" % r2.get("err_variant")
     k = v["kind"]
     if k in ("perm-outcome", "restrict-outcome"): return o1 != o2
-    if o1 != "Ok" or o2 != "Ok": return k == "perm-groups" and False
+    if k == "perm-groups" and not ("paths" in real and "paths" in r2): return False
+    if k != "perm-groups" and (o1 != "Ok" or o2 != "Ok"): return False
     if k == "perm-tokens": return real["tokens"] != r2["tokens"]
     if k == "perm-groups":
         perm = v["perm"]; g1 = {}; g2 = {}
